@@ -47,16 +47,18 @@ def gen_case(rng, thorough):
     else:
         thr = M.gen_threshold(rng, cms)
     k = rng.random()
-    kind = "rough" if k < 0.4 else ("refine_none" if k < 0.45 else "refine")
+    kind = "rough" if k < 0.38 else ("refine_none" if k < 0.42 else ("refine_other" if k < 0.45 else "refine"))
     c = {"kind": kind, "cms": cms, "thr": thr, "family": fam}
-    if kind == "refine":
-        c["p"] = rng.choice(PATCHES)
+    if kind in ("refine", "refine_other"):
+        c["p"] = M.gen_patch_size(rng)          # odd and even sizes, 2..7
+    c["dtype"] = M.gen_dtype(rng, cms, refine=(kind == "refine"))
     return c
 
 
 def term(c, fixed):
-    rf = f"(Some {(c['p'] - 1) // 2}%nat)" if c["kind"] == "refine" else "None"
-    return f"GPeaks {core.cbool(fixed)} {M.cms_lit(c['cms'])} {core.cq(c['thr'])} {rf}"
+    # the patch by its size p (Global.global_peaks_p: odd = integer-centred window, even = half-pixel samples)
+    rf = f"(Some {c['p']}%nat)" if c["kind"] == "refine" else "None"
+    return f"GPeaksP {core.cbool(fixed)} {M.cms_lit(c['cms'])} {core.cq(c['thr'])} {rf}"
 
 
 def case_json(c):
@@ -81,17 +83,20 @@ def canon(res):
 
 def run_impl(c, mods):
     torch, pf = mods
-    t = M.to_tensor(c["cms"], torch)
+    t = M.to_tensor(c["cms"], torch, c.get("dtype", "float32"))
     if c["kind"] == "rough":
         return canon(pf.find_global_peaks_rough(t, threshold=float(c["thr"])))
     if c["kind"] == "refine_none":
         return canon(pf.find_global_peaks(t, threshold=float(c["thr"]), refinement=None))
+    if c["kind"] == "refine_other":     # any other refinement string: grid-aligned peaks unchanged
+        return canon(pf.find_global_peaks(t, threshold=float(c["thr"]), refinement="local",
+                                          integral_patch_size=c["p"]))
     return canon(pf.find_global_peaks(t, threshold=float(c["thr"]), refinement="integral",
                                       integral_patch_size=c["p"]))
 
 
-def impl_rough(cms, thr, mods):
-    return run_impl({"kind": "rough", "cms": cms, "thr": thr}, mods)
+def impl_rough(cms, thr, mods, dtype="float32"):
+    return run_impl({"kind": "rough", "cms": cms, "thr": thr, "dtype": dtype}, mods)
 
 
 # ---------------------------------------------------------------- the property, executable
@@ -121,7 +126,8 @@ def oracle(c, out, mods):
     if len(out) != B or any(len(o) != C for o in out):
         return [("output shape is not (samples, channels)", None)]
     refine = c["kind"] == "refine"
-    rough = impl_rough(cms, thr, mods) if refine else out
+    ts = M.tol_scale(c.get("dtype", "float32"))
+    rough = impl_rough(cms, thr, mods, c.get("dtype", "float32")) if refine else out
     for s in range(B):
         for ch in range(C):
             m = cms[s][ch]
@@ -145,16 +151,17 @@ def oracle(c, out, mods):
                               f"elsewhere", SEL_F2 if selector_F2(m) else None))
             if refine:
                 p = c["p"]
-                r = (p - 1) // 2
+                r = p // 2          # the cells a p x p patch reads lie within radius p // 2 (odd and even p)
                 ok = all(math.isfinite(t) for t in pt) and abs(pt[0] - x0) <= p / 2 and abs(pt[1] - y0) <= p / 2
                 if not ok:                                                    # c07_refine_bound
                     fails.append((f"{where}: refined {pt} is more than half a patch (p={p}) from cell {(x0, y0)}",
                                   SEL_F9 if M.selector_F9(m, x0, y0, r) else None))
                     continue
-                P = M.patch_values(m, x0, y0, r)
-                sym = all(P[i][j] == P[p - 1 - i][p - 1 - j] for i in range(p) for j in range(p))
-                if sym and sum(map(sum, P)) > 0 and not M.selector_F9(m, x0, y0, r):   # c07_symmetric_unmoved
-                    if abs(pt[0] - x0) > 1e-4 or abs(pt[1] - y0) > 1e-4:
+                P = M.patch_values(m, x0, y0, r)        # the window of cells, radius p // 2
+                n = 2 * r + 1
+                sym = all(P[i][j] == P[n - 1 - i][n - 1 - j] for i in range(n) for j in range(n))
+                if sym and not M.selector_F9(m, x0, y0, r):                  # c07_symmetric_unmoved(_any_patch)
+                    if abs(pt[0] - x0) > 1e-4 * ts or abs(pt[1] - y0) > 1e-4 * ts:
                         fails.append((f"{where}: patch symmetric about {(x0, y0)} but refined to {pt}", None))
     # channel independence: every (sample, channel) alone gives the same answer           c07_channel_independence
     if B > 1 or C > 1:
@@ -162,7 +169,7 @@ def oracle(c, out, mods):
             for ch in range(C):
                 alone = run_impl({**c, "cms": [[cms[s][ch]]]}, mods)[0][0]
                 here = out[s][ch]
-                okp = all((isnan(a) and isnan(b)) or (math.isfinite(a) and math.isfinite(b) and abs(a - b) <= 1e-4 * (1 + abs(a)))
+                okp = all((isnan(a) and isnan(b)) or (math.isfinite(a) and math.isfinite(b) and abs(a - b) <= 1e-4 * ts * (1 + abs(a)))
                           or a == b or (not math.isfinite(a) and not math.isfinite(b))
                           for a, b in zip(alone[0], here[0]))
                 if not okp or alone[1] != here[1]:
@@ -175,7 +182,9 @@ def compare(c, model, out, fixed):
     skipped = 0
     if len(model) != len(out) or any(len(a) != len(b) for a, b in zip(model, out)):
         return "shape differs", 0
-    r = (c["p"] - 1) // 2 if c["kind"] == "refine" else 0
+    p = c["p"] if c["kind"] == "refine" else 1
+    r = p // 2
+    ts = M.tol_scale(c.get("dtype", "float32"))
     for s, (ms, os_) in enumerate(zip(model, out)):
         for ch, ((mpt, mv), (pt, v)) in enumerate(zip(ms, os_)):
             if float(core.frac(mv)) != v:
@@ -197,10 +206,10 @@ def compare(c, model, out, fixed):
             mx = max(vv for row in m for vv in row)
             x0 = min(j for j in range(len(m[0])) if any(row[j] == mx for row in m))
             y0 = min(i for i, row in enumerate(m) if (row[x0] == mx if fixed else mx in row))
-            sm, ab = M.patch_condition(m, x0, y0, r)
+            sm, ab = M.patch_condition_p(m, x0, y0, p)
             cond = float(ab / abs(sm)) if sm != 0 else 1e9
             for u, w in zip(a, pt):
-                tol = ATOL + RTOL * abs(u) + 2e-5 * cond * (abs(u) + r + 1)
+                tol = ts * (ATOL + RTOL * abs(u) + 2e-5 * cond * (abs(u) + r + 1))
                 if not (math.isfinite(w) and abs(u - w) <= tol):
                     return f"map ({s},{ch}): impl {pt} model {a}", 0
     return None, skipped
@@ -216,8 +225,8 @@ def gaussian_test(run, mods, n):
     rng = run.rng
     fails, worst = 0, 0.0
     for _ in range(n):
-        # odd sizes are the modelled ones; even sizes (patch sampled at half-pixel positions) are
-        # covered here only: centred bump unmoved, offset has the sign of the displacement, half-patch bound
+        # all sizes 2..7: centred bump unmoved, offset has the sign of the displacement
+        # (c07_gaussian_moves_toward_centre_any_patch), no overshoot, half-patch bound
         p = rng.choice(PATCHES + [2, 4, 6])
         even = p % 2 == 0
         r = p // 2
@@ -233,7 +242,7 @@ def gaussian_test(run, mods, n):
         for a, ctr in enumerate((cx, cy)):
             g, f = rough[0, 0, a].item(), ref[0, 0, a].item()
             d, off = ctr - g, f - g
-            overshoot = abs(d - off) > abs(d) + 1e-4 and not (even and abs(d) >= 1 / 16)
+            overshoot = abs(d - off) > abs(d) + 1e-4      # all sizes (the exact formula never overshoots: off/d <= 1)
             bad = (abs(d) >= 1 / 16 and off * d <= 0) or overshoot or abs(off) > p / 2 + 1e-4
             if abs(d) >= 1 / 16:
                 worst = max(worst, off / d)
@@ -243,7 +252,7 @@ def gaussian_test(run, mods, n):
                                                          "centre": [cx, cy], "p": p},
                                                 "oracle": f"axis {a}: true offset {d}, refinement moved by {off}"})
     run.count("gaussian_bumps_tested", n)
-    run.notes.append(f"test (not proof): {n} float32 Gaussian bumps, sub-pixel centres k/16, sigma 0.5..4, p in 3,5,7 (and 2,4,6 without the overshoot clause): "
+    run.notes.append(f"test (not proof): {n} float32 Gaussian bumps, sub-pixel centres k/16, sigma 0.5..4, p in 2..7: "
                      f"{fails} failures of 'offset has the sign of the displacement, does not overshoot'; "
                      f"largest offset/displacement ratio {worst:.4f}")
 
@@ -282,7 +291,7 @@ def check_box(run):
         run.axioms.update(std)
         nprim = max(nprim, len(prim))
     run.coverage.setdefault("prop_files", []).append({k: res[k] for k in ("file", "rc", "printed", "wall_s")})
-    run.trusted.append(f"c07_gaussian_error_does_not_grow_partial (PropsBox.v) is proved with the Interval tactic and "
+    run.trusted.append(f"c07_gaussian_error_does_not_grow_partial and ..._all_sigma_partial (PropsBox.v) are proved with the Interval tactic and "
                        f"additionally depends on {nprim} standard-library declarations of Coq's primitive 63-bit "
                        f"integers (Uint63.*_spec axioms and PrimInt63.* primitives, used by Bignums inside Interval)")
 
@@ -311,8 +320,8 @@ def check(run: core.Run) -> int:
             blk = maps[i:i + 9]
             cms = [blk[0:3], blk[3:6], blk[6:9]]
             cases.append({"kind": "rough", "cms": cms, "thr": thrs[(i // 9) % len(thrs)], "family": "exhaustive_3x3"})
-            cases.append({"kind": "refine", "cms": cms, "thr": thrs[(i // 9 + 3) % len(thrs)], "p": 3,
-                          "family": "exhaustive_3x3"})
+            cases.append({"kind": "refine", "cms": cms, "thr": thrs[(i // 9 + 3) % len(thrs)],
+                          "p": (3, 2, 4)[(i // 9) % 3], "family": "exhaustive_3x3"})
     terms = [term(c, fixed) for c in cases]
     sel_terms = ["GSelF2 " + core.clist([m for smp in c["cms"] for m in smp], M.cmap_lit) for c in cases]
     model = core.coq_eval_sharded(PREAMBLE, terms + sel_terms, RUN, RENDER, shard=100, jobs=12)
@@ -320,7 +329,7 @@ def check(run: core.Run) -> int:
     disagree, sel_disagree, skipped, dist = 0, 0, 0, {}
     for c, m, sel in zip(cases, model, sels):
         for key in (c["kind"], "family:" + c.get("family", "-"), f"p={c.get('p', '-')}",
-                    f"B{len(c['cms'])}C{len(c['cms'][0])}"):
+                    f"B{len(c['cms'])}C{len(c['cms'][0])}", "dtype:" + c.get("dtype", "-")):
             dist[key] = dist.get(key, 0) + 1
         flat = [mm for smp in c["cms"] for mm in smp]
         pysel = [selector_F2(mm) for mm in flat]
@@ -365,11 +374,18 @@ def check(run: core.Run) -> int:
         run.sample(case_json(c))
     run.trusted += [
         "torch.max(dim) returns the first index among tied maxima (modelled; tied by the correspondence run)",
-        "kornia crop_and_resize on integer-cornered boxes modelled as exact pixels, 0 outside the map (see C06)",
+        "kornia crop_and_resize modelled as exact pixels (odd patch sizes) / mean of the 2x2 surrounding cells at half-pixel "
+        "positions (even patch sizes), 0 outside the map (see C06; tied on every run)",
         "the Gaussian clause is proved for the exact real-valued formula; float32 Gaussian bumps are only measured",
     ]
-    run.assumptions += ["map values finite (no NaN/inf); rectangular batches with B,C,H,W >= 1",
-                        "integral_patch_size odd and >= 3"]
+    # NaN cells are outside the property's domain ("the maximum" of such a map is undefined); logged only
+    o = canon(pf.find_global_peaks_rough(torch.tensor([[[[0., float("nan")], [2., 0.]]]]), threshold=0.5))[0][0]
+    run.notes.append(f"observation (outside the domain): a map holding a NaN cell: torch.max propagates NaN, so the NaN cell "
+                     f"is reported with value NaN and is never masked by the threshold: [[0,nan],[2,0]] -> {o}")
+    run.assumptions += ["map values finite (no NaN/inf); rectangular batches with B,C,H,W >= 1; float32 / float64 / float16 "
+                        "inputs (float16 with a singleton axis makes kornia raise in the refinement: kept out, see C06)",
+                        "integral_patch_size >= 2, odd or even (size 1 is a single cell: the Gaussian clause cannot hold "
+                        "for any implementation and kornia raises on the degenerate box)"]
     return run.finish()
 
 
